@@ -36,6 +36,7 @@ func init() {
 		eofWithCompleteFrame(c, "C03.21")
 		upgradeAttemptConcludedOnce(c, "C03.22")
 		deliveryOrderedWithClose(c, "C03.23")
+		c08UpgradeBranchWiring(c, "C03.24") // the old transport is discarded before it is torn down: its Discard can complete a buffered close, which must happen ahead of the closed re-check
 		pingBody(c, "C03.16") // a session that stopped being open still ends with a close event: the ping deadline is armed whatever became of the ping
 		baseTransportEffects(c, "C03.14")
 		variadicIndexSafety(c, "C03.15")
@@ -688,7 +689,11 @@ func c03AdmittedStates(c *core.Ctx, R string, only map[string]bool) {
 			continue
 		}
 		c.Touch(cl.U)
-		got := stateSetString(admittedStates(cl.U, cl.Loc, sockStateKeys, r.field))
+		where := cl.U
+		if cl.Inlined != nil {
+			where = u // made by a transparent helper: judged at the helper call, in the caller's graph
+		}
+		got := stateSetString(admittedStates(where, cl.Loc, sockStateKeys, r.field))
 		c.Check(R, "engine/"+r.id+"@states", cl.Pos(), got == r.want, keyf("runs in %s, table says %s", got, r.want))
 	}
 }
